@@ -8,7 +8,7 @@
 From Continuum Require Import Model.Base Model.VTable Model.Core Model.Savepoint.
 
 Definition scfg : cfg :=
-  mkcfg true false false false false [mkcls true true 0 [mkcol true false; mkcol false false] []].
+  mkcfg true false false false false [mkcls true true 0 [mkcol true false true; mkcol false false true] []].
 Definition s_ins := mkev 0 0 [Some 1; Some 5] [true;true] [] [0%nat;1%nat] false true [false;false].
 Definition s_upd := mkev 0 1 [Some 1; Some 6] [false;true] [] [1%nat] false false [false;false].
 Definition s_dirty := [mkobj 0 [false;true] [] false false].
